@@ -8,7 +8,7 @@ import (
 	"github.com/ozanh/ugo/internal/verifrt"
 )
 
-// In every program CALL(f, args...) is replaced by f(args...) for the in-script
+// In every program CALL(f, args...) is replaced by f(...args) for the in-script
 // variant and by via(f, args...) for the from-Go variant.
 var verifC14Progs = [...]string{
 	// 0: closure over a local, variadic packing
@@ -71,6 +71,36 @@ return [r, log]`,
 mk := func(base) { helper := func(y) { return base + y }; return func(x, f) { return f(x) + helper(x) } }
 fn := mk(a)
 return [CALL(fn, b, func(z) { return z * a }), CALL(fn, 1, func(z) { return z })]`,
+	// 9-12: SEQ(f, list) invokes f once per argument tuple of list on ONE
+	// Invoker (one child VM re-run several times, with failing invocations in
+	// between) and collects values and "err:Name:Message" strings
+	// 9: self call as last statement with the value discarded, error from a nested frame
+	`param (a, b)
+SEQDEF
+boom := func() { throw "boom" }
+var f
+f = func(n) { if n == 0 { return 5 }; if n == 1 { boom() }; f(n - 1) }
+return SEQ(f, [[2], [0], [a & 3], [b & 3], [0]])`,
+	// 10: closure state across invocations
+	`param (a, b)
+SEQDEF
+c := 0
+f := func(x) { c += x; if x == 3 { throw "three" }; return c }
+r := SEQ(f, [[a], [3], [b], [1]])
+return [r, c]`,
+	// 11: try/finally, variadic packing and a runtime error inside the callee
+	`param (a, b)
+SEQDEF
+log := []
+f := func(x, ...rest) { try { if x == 2 { return 1 / (x - 2) }; return [x, rest] } finally { log = append(log, x) } }
+r := SEQ(f, [[a, 1], [2], [b], [0, 1, 2]])
+return [r, log]`,
+	// 12: deep recursion inside one invocation, then normal invocations (frame overflow is not compared: a child VM has its own 1024 frames)
+	`param (a, b)
+SEQDEF
+var g
+g = func(n) { if n == 0 { return 0 }; return 1 + g(n - 1) }
+return SEQ(g, [[a & 7], [300], [b & 7], [3]])`,
 }
 
 func verifC14Modules() *ModuleMap {
@@ -79,10 +109,16 @@ func verifC14Modules() *ModuleMap {
 	return mm
 }
 
+const verifC14SeqS = `seqS := func(f, list) { r := []; for args in list { try { r = append(r, f(...args)) } catch e { r = append(r, "err:" + e.Name + ":" + e.Message) } }; return r }`
+
 func verifC14Rewrite(src string, fromGo bool) string {
 	if fromGo {
+		src = strings.ReplaceAll(src, "SEQDEF", "")
+		src = strings.ReplaceAll(src, "SEQ(", "seq(")
 		return strings.ReplaceAll(src, "CALL(", "via(")
 	}
+	src = strings.ReplaceAll(src, "SEQDEF", verifC14SeqS)
+	src = strings.ReplaceAll(src, "SEQ(", "seqS(")
 	// CALL(f, a, b) -> f(a, b); CALL(f) -> f()
 	out := ""
 	for {
@@ -140,9 +176,35 @@ func VerifC14Invoke() {
 		}
 		return inv.Invoke(args...)
 	}}
+	seq := &Function{Name: "seq", ValueEx: func(c Call) (Object, error) {
+		if c.Len() != 2 {
+			return nil, ErrWrongNumArguments.NewError("want=2")
+		}
+		list, ok := c.Get(1).(Array)
+		if !ok {
+			return nil, NewArgumentTypeError("2nd", "array", c.Get(1).TypeName())
+		}
+		inv := NewInvoker(c.VM(), c.Get(0))
+		if mode != 1 {
+			inv.Acquire()
+			defer inv.Release()
+		}
+		r := Array{}
+		for _, t := range list {
+			args, _ := t.(Array)
+			v, err := inv.Invoke(args...)
+			if err != nil {
+				n, m := verifErrNameMsg(err)
+				r = append(r, String("err:"+n+":"+m))
+				continue
+			}
+			r = append(r, v)
+		}
+		return r, nil
+	}}
 	run := func(fromGo bool) verifOutcome {
-		g := Map{"g": Int(100), "via": via}
-		s := "global via; " + verifC14Rewrite(src, fromGo)
+		g := Map{"g": Int(100), "via": via, "seq": seq}
+		s := "global (via, seq); " + verifC14Rewrite(src, fromGo)
 		bc, err := Compile([]byte(s), CompilerOptions{ModuleMap: verifC14Modules(), NoOptimize: verifrt.Param("opt") == 0})
 		if err != nil {
 			return verifOutcome{compErr: err}
